@@ -18,7 +18,7 @@ from elementpath.datatypes import QName, AnyAtomicType
 from elementpath.tdop import MultiLabel
 from elementpath.namespaces import XSD_NAMESPACE, XPATH_FUNCTIONS_NAMESPACE, \
     XPATH_MATH_FUNCTIONS_NAMESPACE
-from elementpath.helpers import split_function_test
+from elementpath.helpers import SPACES_OR_COMMENTS, split_function_test
 from elementpath.sequences import xlist
 from elementpath.etree import is_etree_document, is_etree_element
 from elementpath.sequence_types import match_sequence_type, is_sequence_type_restriction
@@ -36,7 +36,7 @@ class XPathFunction(XPathToken):
     __name__: str
     _qname: Optional[QName] = None
     pattern = r'(?<!\$)\b[^\d\W][\w.\-\xb7\u0300-\u036F\u203F\u2040]*' \
-              r'(?=\s*(?:\(\:.*\:\))?\s*\((?!\:))'
+              r'(?=' + SPACES_OR_COMMENTS + r'\((?!\:))'
 
     sequence_types: ta.SequenceTypesType = ()
     "Sequence types of arguments and of the return value of the function."
